@@ -96,6 +96,29 @@ def c021(ctx):
             ctx.check(R, f, "Ok-output", not bad and ga and gf,
                       "Ok(written) is produced only after LogBuilder::append and LogBuilder::flush both returned Ok",
                       "an Ok output is produced without append+flush having succeeded", pt=pt)
+        # the offset handed to waiters covers their own batch: it is `written` read *after* the batch length was added to it
+        # (the fsync queue skips the sync when synced >= offset, so an offset from before the batch acknowledges it unsynced)
+        wr = P.field_writes(f, r"log::WriteCoalescingCore$", "written")
+        ctx.floor(R, f.skey + " written += len", len(wr), 1)
+        for w in wr:
+            st = f.blocks[w[0]].st[w[1]]
+            srcs, _l = P.value_slice(f, st["rv"].get("a")) if st["rv"]["r"] == "use" else ([], None)
+            adds_len = any(s_["k"] == "call" and re.search(r"Vec.*::len$|slice.*::len$", s_["callee"]) and
+                           any(x["k"] == "field" and x["f"] == "buffer" for x in P.origins(f, s_["t"]["args"][0])) for s_ in srcs)
+            ctx.check(R, f, "written-advance", adds_len, "written advances by the length of the batch buffer", "written does not advance by acc.buffer.len()", pt=w)
+        for pt in oks:
+            st = f.blocks[pt[0]].st[pt[1]]
+            # the statement(s) that read self.written into the Ok payload
+            _srcs, slice_locals = P.value_slice(f, st["rv"]["ops"][0])
+            reads = [rp for rp in P.field_reads(f, r"log::WriteCoalescingCore$", "written")
+                     if rp == pt or (rp[1] < len(f.blocks[rp[0]].st) and f.blocks[rp[0]].st[rp[1]]["lhs"]["l"] in slice_locals and
+                                     f.blocks[rp[0]].st[rp[1]]["rv"]["r"] in ("use", "cast"))]
+            token_from_written = any(s_["k"] == "field" and s_["f"] == "written" for s_ in P.origins(f, st["rv"]["ops"][0]))
+            stale = [rp for rp in reads if rp not in wr and P.order(f, wr, [rp])]
+            ctx.check(R, f, "token-covers-batch", token_from_written and bool(reads) and not stale,
+                      "the Ok(offset) handed to the batch's writers is self.written after the batch was added",
+                      "the offset handed to waiters is read before `written` includes their batch: the fsync queue's `synced >= offset` short-cut then "
+                      "acknowledges the batch without a covering fdatasync (the first append to a fresh log has offset 0)", pt=pt)
     f = ctx.fn(R, "<sst::log::FsyncCoalescingCore as sync42::work_coalescing_queue::WorkCoalescingCore>::work")
     if f:
         c021_fsync_core(ctx, R, f)
